@@ -509,3 +509,13 @@ for _p in ("C06", "C07", "C08", "C09", "C10", "C11", "C12", "C13", "C15", "C16",
 PROPS["C04"]["also_report"] = ["C12"]
 PROPS["C04"]["drivers"]["quick"].append({"args": ["c04", "--full", "--maxruns", "60", "--nlist", "3"], "shards": 1, "monitors": ["C12"]})
 PROPS["C04"]["drivers"]["thorough"].append({"args": ["c04", "--full", "--maxruns", "150", "--nlist", "3,4"], "shards": 3, "monitors": ["C12"]})
+
+
+# C01, record level, for ALL incarnations and generations 0..65535 at once (symbolic, Apalache)
+PROPS["C01"]["mc"].append({"kind": "apalache", "module": "ApaC01", "inv": "Laws", "timeout": 900,
+                           "what": "Apalache, length-0 invariant over all records m,u,w with g,inc in 0..65535: monotone, join, "
+                                   "commutation, idempotence, transitivity and totality of the precedence order"})
+TEXT["C01"]["level_text"] += (" The record-level laws (apply = join, monotone, commutative, idempotent; the order is total and transitive) "
+                              "are additionally discharged by Apalache for ALL generations and incarnations in 0..65535 at once "
+                              "(spec/ApaC01.tla, symbolic).")
+TEXT["C01"]["technique"] += " + Apalache (record-level laws over the full u16 range)"
